@@ -861,3 +861,12 @@ def _ini_read_file(I, args, kwargs):
 
 import collections as _collections
 FUNC_MODELS[id(_collections.ChainMap)] = (_collections.ChainMap, lambda I, a, k: _collections.ChainMap(*a, **k))
+
+
+@_parser_model(_cp.RawConfigParser.read_string)
+def _ini_read_string(I, args, kwargs):
+    parser, text = args[0], args[1]
+    if isinstance(text, (DocText, SymStr)):
+        f = SymIO(text)
+        return _ini_read_file(I, [parser, f], {})
+    return NotImplemented
